@@ -24,6 +24,7 @@ Suppressions:
 """
 
 import ast
+import copy
 from collections.abc import Sequence
 
 from .config import CQSConfig
@@ -83,6 +84,34 @@ def _is_function_definition(stmt: ast.stmt) -> bool:
     return isinstance(stmt, (ast.FunctionDef, ast.AsyncFunctionDef))
 
 
+class _NestedDefinitionRemover(ast.NodeTransformer):
+    """Drops function and class definitions nested anywhere inside a statement."""
+
+    def visit_FunctionDef(self, node: ast.FunctionDef) -> None:  # noqa: N802  # pylint: disable=invalid-name
+        """Remove nested function."""
+
+    def visit_AsyncFunctionDef(self, node: ast.AsyncFunctionDef) -> None:  # noqa: N802  # pylint: disable=invalid-name
+        """Remove nested async function."""
+
+    def visit_ClassDef(self, node: ast.ClassDef) -> None:  # noqa: N802  # pylint: disable=invalid-name
+        """Remove nested class."""
+
+
+def _without_nested_definitions(stmt: ast.stmt) -> ast.stmt:
+    """Copy of a statement without the definitions nested in its blocks.
+
+    Operations inside a nested function or class belong to that definition (it is
+    analyzed on its own), not to the function whose body contains the statement.
+    """
+    if not any(
+        isinstance(node, (ast.FunctionDef, ast.AsyncFunctionDef, ast.ClassDef))
+        for node in ast.walk(stmt)
+    ):
+        return stmt
+    stripped: ast.stmt = _NestedDefinitionRemover().visit(copy.deepcopy(stmt))
+    return stripped
+
+
 def _detect_inputs_in_body(
     body: Sequence[ast.stmt], input_detector: InputDetector
 ) -> list[InputOperation]:
@@ -90,7 +119,7 @@ def _detect_inputs_in_body(
     inputs: list[InputOperation] = []
     stmts = [stmt for stmt in body if not _is_function_definition(stmt)]
     for stmt in stmts:
-        mini_module = ast.Module(body=[stmt], type_ignores=[])
+        mini_module = ast.Module(body=[_without_nested_definitions(stmt)], type_ignores=[])
         stmt_inputs = input_detector.find_inputs(mini_module)
         inputs.extend(stmt_inputs)
     return inputs
@@ -103,7 +132,7 @@ def _detect_outputs_in_body(
     outputs: list[OutputOperation] = []
     stmts = [stmt for stmt in body if not _is_function_definition(stmt)]
     for stmt in stmts:
-        mini_module = ast.Module(body=[stmt], type_ignores=[])
+        mini_module = ast.Module(body=[_without_nested_definitions(stmt)], type_ignores=[])
         stmt_outputs = output_detector.find_outputs(mini_module)
         outputs.extend(stmt_outputs)
     return outputs
